@@ -284,6 +284,10 @@ func (p *Properties) UnpackWillProperties(bufr *bytes.Buffer) error {
 	if length == 0 {
 		return nil
 	}
+	if bufr.Len() < length {
+		// the Property Length exceeds what is left of the packet
+		return codes.ErrMalformed
+	}
 	newBufr := bytes.NewBuffer(bufr.Next(length))
 	var propType byte
 	for {
@@ -345,6 +349,10 @@ func (p *Properties) Unpack(bufr *bytes.Buffer, packetType byte) error {
 	}
 	if length == 0 {
 		return nil
+	}
+	if bufr.Len() < length {
+		// the Property Length exceeds what is left of the packet
+		return codes.ErrMalformed
 	}
 	newBufr := bytes.NewBuffer(bufr.Next(length))
 	var propType byte
